@@ -6,10 +6,12 @@
 package verif
 
 import (
+	"context"
 	"encoding/json"
 	"fmt"
 	"os"
 	"reflect"
+	"time"
 )
 
 type rec struct {
@@ -176,4 +178,29 @@ func Run(f func()) (outcome string) {
 // SameFunc reports whether two func values are the same function.
 func SameFunc(a, b interface{}) bool {
 	return reflect.ValueOf(a).Pointer() == reflect.ValueOf(b).Pointer()
+}
+
+type vctx struct {
+	context.Context
+	cancel context.CancelCauseFunc
+}
+
+// NewContext returns a cancellable context the harness controls with Cancel / Expire.
+func NewContext(withDeadline bool) context.Context {
+	parent := context.Background()
+	if withDeadline {
+		var c context.CancelFunc
+		parent, c = context.WithTimeout(parent, 24*time.Hour)
+		_ = c
+	}
+	ctx, cancel := context.WithCancelCause(parent)
+	return &vctx{Context: ctx, cancel: cancel}
+}
+func Cancel(ctx context.Context) { ctx.(*vctx).cancel(context.Canceled) }
+func Expire(ctx context.Context) { ctx.(*vctx).cancel(context.DeadlineExceeded) }
+func (v *vctx) Err() error {
+	if v.Context.Err() != nil {
+		return context.Cause(v.Context)
+	}
+	return nil
 }
